@@ -445,7 +445,28 @@ def _donor_for(cls):
 
 # ---------------------------------------------------------------- generation
 
+SWEEP_CALLS = ('as_json', 'as_markdown', '_asdict', 'fingerprints', 'key_tag', 'key_bytes', 'host_key_asdict', 'ja3',
+               'hassh', 'hassh_server', 'str')
+
+
 def generate(rng, index, tier, extra):  # pylint: disable=unused-argument
+    if extra and extra.get('phase') == 'sweep':
+        # one class per run: every accepted input of the class (committed seeds and derived valid variants) is
+        # parsed and observed by every observer before and after compose(), twice
+        paths = corpus.class_paths()
+        path = paths[index % len(paths)]
+        inputs = corpus.accepted_plus(path)[:48 if tier == 'thorough' else 24]
+        return {'kind': 'purity', 'cls': path, 'inputs': [raw.hex() for raw in inputs]}
+    if extra and extra.get('phase') == 'pairs':
+        # one class per history: its accepted inputs observed one after the other in one process (objects die and
+        # new ones take their place), each compared with the same observation alone in a pristine process
+        paths = corpus.class_paths()
+        path = paths[index % len(paths)]
+        inputs = corpus.accepted_plus(path)[:5]
+        order = inputs + inputs[:2] if len(inputs) > 1 else inputs
+        calls = list(SWEEP_CALLS) + ['compose'] + list(SWEEP_CALLS)
+        return {'kind': core.RUNSEQ, 'docs': [
+            {'kind': 'observe', 'subject': ['mutated', path, raw.hex(), []], 'calls': calls} for raw in order]}
     roll = rng.random()
     paths = corpus.class_paths()
     if roll < 0.5:
@@ -524,8 +545,17 @@ def generate(rng, index, tier, extra):  # pylint: disable=unused-argument
 def needs_isolation(doc):
     """Runs that edit objects in place execute in a forked child: a shared default (the very defect
     this property is about) would otherwise leak from one run into the next."""
-    return doc['kind'] in ('defaults', 'buffer') or (
+    return doc['kind'] in ('defaults', 'buffer', 'purity') or (
         doc['kind'] == 'observe' and (doc['subject'][0] != 'corpus' or bool(doc.get('edits')) or bool(doc.get('grow'))))
+
+
+def history_isolation(doc):
+    """Inside a history of runs only the runs that edit objects in place stay isolated (they exercise the listed
+    Set-Cookie shared-default finding); observing never changes anything, so observers of different objects run in
+    one process, where state shared between objects would show."""
+    if doc['kind'] == 'observe':
+        return bool(doc.get('edits')) or bool(doc.get('grow')) or doc['subject'][0] in ('default', 'client_hello')
+    return True
 
 
 def execute(doc):
@@ -537,6 +567,16 @@ def execute(doc):
         _exec_buffer(doc, res)
     elif kind == 'defaults':
         _exec_defaults(doc, res)
+    elif kind == 'purity':
+        calls = list(SWEEP_CALLS) + ['compose'] + list(SWEEP_CALLS) + ['compose', 'repr'] + list(SWEEP_CALLS)
+        for hexdata in doc['inputs']:
+            _exec_observe({'kind': 'observe', 'subject': ['mutated', doc['cls'], hexdata, []], 'calls': calls}, res)
+            if res.violations:
+                break
+        res.sched_sig = ('purity', doc['cls'].rsplit('.', 1)[1], len(doc['inputs']))
+        res.nontrivial = bool(doc['inputs'])
+        res.stats['runs.purity_sweep_classes'] += 1
+        res.stats['purity_sweep_inputs'] += len(doc['inputs'])
     else:
         raise core.HarnessError('unknown schedule kind %r' % kind)
     return res
@@ -834,6 +874,8 @@ def shrink(doc, sig, budget):
         doc['events'] = core.ddmin_list(doc['events'], lambda c: test_with(events=c), budget)
         if doc.get('tail') and test_with(tail=''):
             doc['tail'] = ''
+    elif doc['kind'] == 'purity':
+        doc['inputs'] = core.ddmin_list(doc['inputs'], lambda c: bool(c) and test_with(inputs=c), budget)
     return doc
 
 
@@ -844,9 +886,12 @@ def check(tier, seed):
     began = time.time()
     me = __import__('simverif.props.c13', fromlist=['x'])
     extra = prepare(tier)
+    histories = core.history_batch(me, seed, tier, extra)      # first: this process has executed no run yet
     core.determinism_selftest(me, seed, tier, extra, count=60)
     n_runs, wall = BUDGET[tier]
-    batch = core.run_batch(me, seed, tier, n_runs, wall, extra)
+    sweep = core.run_batch(me, seed, tier, len(corpus.class_paths()), 600.0, {'phase': 'sweep'}, chunk=4)
+    pairs = core.run_batch(me, seed, tier, len(corpus.class_paths()), 600.0, {'phase': 'pairs'}, chunk=2)
+    batch = core.merge_batches([sweep, pairs, core.run_batch(me, seed, tier, n_runs, wall, extra), histories])
     coverage = core.coverage_from_batch(
         batch, RULE,
         fault_kinds=('observer_call_failed', 'buffer_overwrite', 'buffer_fill', 'buffer_clear', 'buffer_extend',
